@@ -1,2 +1,42 @@
-(* C06 - statements are added as proofs land. *)
-From ZV Require Import Str Zerv Render.
+(* C06 - rendering places every schema component where the documented rules say.
+   Model: Model/Render.v (from_zerv.rs x2, presets.rs).  Spec: Spec/Placement.v. *)
+From ZV Require Import Str Zerv Render Placement RenderProofs.
+
+(* SemVer: the processing loops compute exactly the placement rule - first three integer-valued core
+   components as major.minor.patch (missing ones 0), every other core and extra-core contribution in
+   schema order as pre-release identifiers, build components as build metadata - for EVERY schema and vars *)
+Theorem c06_semver_refines : forall z, semver_of_zerv z = semver_placement z.
+Proof. exact semver_refines_placement. Qed.
+
+(* unset variables contribute nothing: deleting a component that resolves to nothing changes no SemVer rendering *)
+Theorem c06_unset_contributes_nothing : forall z c pre post, unset c (z_vars z) ->
+  let sc := z_schema z in
+  (s_core sc = pre ++ c :: post -> semver_of_zerv z = semver_of_zerv (with_schema z {| s_core := pre ++ post; s_extra := s_extra sc; s_build := s_build sc; s_prec := s_prec sc |})) /\
+  (s_extra sc = pre ++ c :: post -> semver_of_zerv z = semver_of_zerv (with_schema z {| s_core := s_core sc; s_extra := pre ++ post; s_build := s_build sc; s_prec := s_prec sc |})) /\
+  (s_build sc = pre ++ c :: post -> semver_of_zerv z = semver_of_zerv (with_schema z {| s_core := s_core sc; s_extra := s_extra sc; s_build := pre ++ post; s_prec := s_prec sc |})).
+Proof. exact semver_unset_contributes_nothing. Qed.
+
+(* the smart presets (all 22 covered) choose their schema solely from dirty / distance>0 / pre-release / post *)
+Theorem c06_tier_noninterference : forall p v1 v2,
+  opt_true (v_dirty v1) = opt_true (v_dirty v2) -> opt_pos (v_distance v1) = opt_pos (v_distance v2) ->
+  is_some (v_pre v1) = is_some (v_pre v2) -> is_some (v_post v1) = is_some (v_post v2) ->
+  schema_with_zerv p v1 = schema_with_zerv p v2.
+Proof. exact tier_noninterference. Qed.
+
+Check c06_semver_refines : forall z, semver_of_zerv z = semver_placement z.
+
+(* non-vacuity: an unset component exists (a variable that is None), and a concrete rendering *)
+Definition ex_vars : vars :=
+  {| v_major := Some 1; v_minor := None; v_patch := Some 3; v_epoch := None; v_pre := Some {| pr_label := Rc; pr_num := None |};
+     v_post := None; v_dev := None; v_distance := None; v_dirty := None; v_bumped_branch := Some [102;47;120]; v_bumped_hash := None;
+     v_bumped_ts := None; v_last_branch := None; v_last_hash := None; v_last_ts := None; v_last_tag := None; v_custom := JObj [] |}.
+Example c06_ex_unset : unset (CVar Minor) ex_vars.
+Proof. split; intros z; reflexivity. Qed.
+Example c06_ex_render :
+  SemVer.semver_print (semver_of_zerv {| z_schema := fixed_schema Standard TPre true; z_vars := ex_vars |})
+  = [49;46;51;46;48;45;114;99;43;102;46;120]%N.    (* "1.3.0-rc+f.x" *)
+Proof. vm_compute. reflexivity. Qed.
+
+Print Assumptions c06_semver_refines.
+Print Assumptions c06_unset_contributes_nothing.
+Print Assumptions c06_tier_noninterference.
